@@ -143,6 +143,13 @@ def Tmpl.size : Tmpl → Int
   | .float _ xs => xs.length
   | .empty => 0
 
+/-- ASCIINode.FillInStringLength as the harness prints it: `-2,-2` for a value node, the declared
+bounds for a variable node (-1 = no limit), `-` for every other kind of item -/
+def Tmpl.fillInLen : Tmpl → String
+  | .ascii _ => "-2,-2"
+  | .asciiVar _ mn mx => s!"{mn},{mx}"
+  | _ => "-"
+
 /-- values of a slot list, `none` when a variable is present (Go: `len(variables) != 0`). -/
 def slotVals {α} : List (Slot α) → Option (List α)
   | [] => some []
